@@ -30,6 +30,7 @@ type vtimer struct {
 	fire   func()
 	period time.Duration
 	dead   bool
+	free   bool // harness-internal (Sleep): not counted against MaxTimers
 }
 
 var epochBase = time.Date(2022, 1, 1, 0, 0, 0, 0, time.UTC)
@@ -48,8 +49,9 @@ func (s *S) Elapsed() time.Duration { return s.now }
 
 func (s *S) nextTimer() *vtimer {
 	var best *vtimer
+	exhausted := s.fired >= s.opt.MaxTimers
 	for _, t := range s.timers {
-		if t.dead {
+		if t.dead || (exhausted && !t.free) {
 			continue
 		}
 		if best == nil || t.at < best.at || (t.at == best.at && t.seq < best.seq) {
@@ -59,8 +61,31 @@ func (s *S) nextTimer() *vtimer {
 	return best
 }
 
+// tied returns the live timers due at the same instant as t, in creation order.
+func (s *S) tied(t *vtimer) []*vtimer {
+	var out []*vtimer
+	for _, u := range s.timers {
+		if !u.dead && u.at == t.at && (u.free || s.fired < s.opt.MaxTimers) {
+			out = append(out, u)
+		}
+	}
+	for i := 1; i < len(out); i++ {
+		for j := i; j > 0 && out[j].seq < out[j-1].seq; j-- {
+			out[j], out[j-1] = out[j-1], out[j]
+		}
+	}
+	return out
+}
+
 func (s *S) fire(t *vtimer) {
-	s.fired++
+	// timers due at the same instant may fire in any order: creation order is the default,
+	// another order costs one deviation
+	if ts := s.tied(t); len(ts) > 1 {
+		t = ts[s.x.ChooseCost(len(ts), 1)]
+	}
+	if !t.free {
+		s.fired++
+	}
 	if t.at > s.now {
 		s.now = t.at
 	}
@@ -147,9 +172,13 @@ func Sleep(d time.Duration) {
 		return
 	}
 	woke := false
-	AddTimer(d, 0, func() { woke = true })
+	h := AddTimer(d, 0, func() { woke = true })
+	h.t.free = true
 	s.yield("sleep", func() bool { return woke })
 }
+
+// TimersFired returns the number of (non-harness) timer firings so far.
+func (s *S) TimersFired() int { return s.fired }
 
 // Current returns the active scheduler (nil outside Run).
 func Current() *S { return sched() }
